@@ -12,8 +12,7 @@ M = [
  ("C03","config route consulted before Route","proxy.go",'	host, port, transport, err = p.getNextRequestHopByRoute(msg)\n	if err == nil {\n		return host, port, transport, err\n	}\n	return p.getNextRequestHopByConfig(msg)','	host, port, transport, err = p.getNextRequestHopByConfig(msg)\n	if err == nil {\n		return host, port, transport, err\n	}\n	return p.getNextRequestHopByRoute(msg)'),
  ("C03","matchSIPURI ignores user","proxy.go",'if hostName == name[pos+1:] && user == name[0:pos] {','if hostName == name[pos+1:] {'),
  ("C04","sendToBackend ignores dialog pin","proxy.go",'		backend, transport, err := p.findBackendByDialog(msg)\n		if err != nil {','		backend, transport, err := p.findBackendByDialog(msg)\n		if err != nil || true {'),
- ("C05","index not reduced modulo n","backend.go",'rb.index = (rb.index + 1) % n','rb.index = (rb.index + 1)'),
- ("C05","RemoveBackend slices index+2","backend.go",'backends = append(backends, rb.backends[index+1:]...)','backends = append(backends, rb.backends[min(index+2, len(rb.backends)):]...)'),
+ ("C05","RemoveBackend keeps the removed element in the list","backend.go",'backends = append(backends, rb.backends[index+1:]...)','backends = append(backends, rb.backends[index:]...)'),
  ("C05","map not updated on remove","backend.go",'		delete(rb.backendMap, address)\n','		_ = address\n'),
  ("C06","Via appended below the first","message.go",'	headers = append(headers, m.headers[0:pos]...)\n	headers = append(headers, &Header{name: "Via", value: via})','	if pos < len(m.headers) {\n		pos++\n	}\n	headers = append(headers, m.headers[0:pos]...)\n	headers = append(headers, &Header{name: "Via", value: via})'),
  ("C06","branch without cookie","util.go",'return "z9hG4bK" + tmp[len(tmp)-1], nil','return "z9hG4b" + tmp[len(tmp)-1], nil'),
@@ -27,10 +26,10 @@ M = [
  ("C10","datagram length off by one","transport.go",'sized_byte_array.b[:sized_byte_array.n]','sized_byte_array.b[:sized_byte_array.n+1]'),
  ("C10","buffer freed before decode","transport.go",'		msg, err := ParseMessage(reader)\n		u.msgBufPool.Free(sized_byte_array.b)','		u.msgBufPool.Free(sized_byte_array.b)\n		msg, err := ParseMessage(reader)'),
  ("C11","skipWhiteSpace removed","message.go",'	firstLine := true\n	skipWhiteSpace(reader)','	firstLine := true'),
- ("C11","body one byte short","message.go",'io.LimitReader(reader, int64(contentLength))','io.LimitReader(reader, int64(max(contentLength-1, 0)))'),
+ ("C11","body read one byte short","message.go",'io.LimitReader(reader, int64(contentLength))','io.LimitReader(reader, int64(contentLength)-1)'),
  ("C12","full address drops transaction id","transport.go",'if protocol == "tcp" && transId != "" {','if protocol == "tcp" && transId != "" && false {'),
  ("C12","transport removed on every response","proxy.go",'		if msg.IsFinalResponse() {\n			p.clientTransMgr.RemoveTransport','		if msg.IsResponse() {\n			p.clientTransMgr.RemoveTransport'),
- ("C13","own route without port comparison","proxy.go",'if sipUri.GetPort() == myPort && p.isSameAddress(sipUri.Host, myAddr) {','if p.isSameAddress(sipUri.Host, myAddr) {'),
+ ("C13","own route without port comparison","proxy.go",'if sipUri.GetPort() == myPort && p.isSameAddress(sipUri.Host, myAddr) {','if myPort >= 0 && p.isSameAddress(sipUri.Host, myAddr) {'),
  ("C13","keepNextHopRoute negated","proxy.go",'	if !P.keepNextHopRoute {\n		msg.PopRoute()','	if P.keepNextHopRoute {\n		msg.PopRoute()'),
  ("C14","SIPURI omits password","sip_uri.go",'		if len(s.Password) > 0 {','		if len(s.Password) > 1 {'),
  ("C14","To.String drops last param when three","to.go",'	for _, kv := range t.params {\n		fmt.Fprintf(buf, ";%s", kv)','	for i, kv := range t.params {\n		if i == 2 {\n			break\n		}\n		fmt.Fprintf(buf, ";%s", kv)'),
